@@ -1,6 +1,6 @@
 // C20 — String operations agree with code-point, byte and grapheme models.
 //
-// Bounded-exhaustive: every string of ≤ 3 elements over a 14-element alphabet (ASCII, 2/3/4-byte code
+// Bounded-exhaustive: every string of ≤ 3 elements over a 15-element alphabet (ASCII, 2/3/4-byte code
 // points, a combining sequence, ZWJ, a regional indicator, invalid UTF-8 bytes, a line feed) × every index
 // -5…5 × every width 0…6 × 2 pad chars × repeat counts {-1,0,1,3}, through the Go API of value.String and
 // through the VM (Elk methods), against a Go model built on unicode/utf8, unicode, strings, an independent
@@ -32,10 +32,10 @@ type elem struct {
 func alphabet(thorough bool) []elem {
 	a := []elem{
 		{"a", "a"}, {"Z", "Z"}, {"\u00e9", "é"}, {"\u00df", "ß"}, {"\u0130", "İ(U+0130)"}, {"\u65e5", "日"}, {"\U0001F600", "😀"}, {"e\u0301", "e+U+0301"},
-		{"\u200d", "ZWJ"}, {"\U0001F1F5", "RI-P"}, {" ", "space"}, {"\xff", "byte FF"}, {"\xc3", "byte C3"}, {"\n", "LF"},
+		{"\u200d", "ZWJ"}, {"\U0001F1F5", "RI-P"}, {" ", "space"}, {"\xff", "byte FF"}, {"\xc3", "byte C3"}, {"\n", "LF"}, {"\r", "CR"},
 	}
 	if thorough {
-		a = append(a, elem{"\u0301", "U+0301"}, elem{"\r", "CR"}, elem{"\U0001F1F1", "RI-L"}, elem{"\u1100", "Hangul L"}, elem{"\u1161", "Hangul V"})
+		a = append(a, elem{"\u0301", "U+0301"}, elem{"\U0001F1F1", "RI-L"}, elem{"\u1100", "Hangul L"}, elem{"\u1161", "Hangul V"})
 	}
 	return a
 }
@@ -1098,7 +1098,7 @@ func main() {
 	engine.Main(&engine.Spec{
 		Prop:  "C20",
 		Level: "exploration",
-		Rule: "every string of ≤ 3 elements over {a, Z, é, ß, İ, 日, 😀, e+U+0301, ZWJ, regional indicator P, space, byte 0xFF, byte 0xC3, LF} (2955 distinct strings; thorough adds U+0301, CR, regional indicator L, Hangul L and V: 7240, plus every string of 4 elements over the base alphabet) " +
+		Rule: "every string of ≤ 3 elements over {a, Z, é, ß, İ, 日, 😀, e+U+0301, ZWJ, regional indicator P, space, byte 0xFF, byte 0xC3, LF, CR} (all distinct strings; CR LF is one grapheme cluster; thorough adds U+0301, regional indicator L, Hangul L and V, plus every string of 4 elements over the base alphabet) " +
 			"× length/char_count/byte_count/grapheme_count, the three iterators, char_at/byte_at/grapheme_at for every index -5…5, rjust/ljust for widths 0…6 × pads {-, é}, * for counts {-1,0,1,3}, uppercase/lowercase, " +
 			"through the Go API of value.String and through the VM; every string of ≤ 2 elements × 29 right operands (Strings of ≤ 1 element, Chars, U+FFFD) for + - <=> < <= > >= == at both levels; transitivity of <=> over all triples of strings of ≤ 1 element (Go API). " +
 			"Oracle: unicode/utf8 decoding (an invalid byte is one character), an independent UAX#29 segmenter for the alphabet cross-checked against rivo/uniseg, unicode simple case mapping (full mapping also admitted for ß and İ; an invalid byte may stay or become U+FFFD), " +
